@@ -6,7 +6,7 @@ tier = sys.argv[1] if len(sys.argv) > 1 else "quick"
 OV = [("zzverif", "zzverif"), ("circuit", "circuit")]
 def H(name, desc): return Harness(name, "./circuit", OV, expect_reach=["end"], desc=desc)
 hs = [H("verifC02A", "1+1 input bits, one gate of arbitrary type and arbitrary wiring, one 1-bit output"),
-      H("verifC02AFrag", "as verifC02A over a transport whose every Read returns at most k bytes, k any of 1..7 (the property quantifies over transport fragmentation): the session must still terminate with the right outputs"),
+      Harness("verifC02AFrag", "./circuit", OV, flags=["-stop-on-violation"], expect_reach=["end"], desc="as verifC02A over a transport whose every Read returns at most k bytes, k any of 1..7 (the property quantifies over transport fragmentation): the session must still terminate with the right outputs (exploration stops at the first violation: a desynchronised stream makes later paths allocate garbage lengths)"),
       H("verifC02B", "2+1 input bits, gates (0,2)->3 (any type) and (1,3)->4 (XOR/XNOR), two 1-bit outputs (IO.Split)")]
 if tier != "quick":
     hs.append(H("verifC02C", "1+2 input bits, gates (0,1)->3 (XOR/XNOR) and (3,2)->4 (any type), one 2-bit output"))
